@@ -53,6 +53,8 @@ Live(im, b, p) ==
     LET sc == Scan(im, b) IN
     \E i \in DOMAIN sc : p >= sc[i].o /\ p < sc[i].o + sc[i].len
 
+Collides(k) == \E k2 \in Keys \ {k} : Hash[k2] = Hash[k]
+
 ProbeBad(im, tp, res) ==
     LET ix == Rebuild(im, IF TombLogOn THEN Tombs(tp) ELSE {}) IN
     UNION {
@@ -60,8 +62,12 @@ ProbeBad(im, tp, res) ==
           r == res[i]
           exp == Lookup(im, ix, k) IN
       (IF r # 0 /\ (r >= 1000000 \/ r \notin stored[k]) THEN {<<"C04", "value_never_stored_for_key", k>>} ELSE {})
-      \cup (IF acked[k].kind = "ins" /\ (r = 0 \/ r < acked[k].n) THEN {<<"C04", "acked_write_lost_or_older", k>>} ELSE {})
-      \cup (IF TombLogOn /\ acked[k].kind = "del" /\ r # 0 /\ r < acked[k].n
+      \* the acknowledged-version clause speaks of keys whose LATEST write or delete was acknowledged (a newer,
+      \* not yet acknowledged operation may or may not have reached the device); keys sharing their hash
+      \* with another key are C17's subject (the disk tier holds one of them)
+      \cup (IF acked[k] = last[k] /\ ~Collides(k) /\ acked[k].kind = "ins" /\ (r = 0 \/ r < acked[k].n)
+            THEN {<<"C04", "acked_write_lost_or_older", k>>} ELSE {})
+      \cup (IF acked[k] = last[k] /\ ~Collides(k) /\ TombLogOn /\ acked[k].kind = "del" /\ r # 0 /\ r < acked[k].n
             THEN {<<"C04", "acked_delete_resurrected", k>>} ELSE {})
       \cup (IF r # exp THEN {<<"drift", "recovery_result", k>>} ELSE {})
       : i \in 1 .. Len(KeySeq) }
@@ -118,7 +124,11 @@ TraceNext ==
                             (IF e.res[i] # 0 /\ e.res[i] \notin stored[k] THEN {<<"C07", "load_returns_unstored_value", k>>} ELSE {})
                             \cup (IF e.claimed[i] = 1 /\ e.res[i] = 0 /\ Lookup(img, ix, k) # 0
                                   THEN {<<"C07", "claimed_key_not_loadable", k>>} ELSE {})
-                            \cup (IF e.res[i] # Lookup(img, ix, k) THEN {<<"drift", "live_lookup", k>>} ELSE {})
+                            \* right after a restart the live index is exactly what the scanner and recovery rebuilt
+                            \cup (IF e.res[i] # Lookup(img, ix, k)
+                                  THEN {<<IF e.reopened THEN "C07" ELSE "drift",
+                                          IF e.reopened THEN "recovered_index_differs_from_written_image" ELSE "live_lookup", k>>}
+                                  ELSE {})
                             : i \in 1 .. Len(KeySeq) }
               /\ UNCHANGED <<img, tpages, stored, last, acked, written>>
          [] e.a = "probe" ->
